@@ -207,7 +207,12 @@ def mutations(rng, base, per):
 
 # ----------------------------------------------------------------- generators: game scripts
 
-ANNOTS = ["", "", "", "!", "?", "'", "!?", "?!", "??", "!!", "'!", "''"]
+# every string over {' ! ?} up to length 3 (the standard writes the Tak mark first, but the parser
+# strips ANY run of these characters from the end of a ply), plus a few longer runs
+_MARKS = ("'", "!", "?")
+ANNOTS = [""] * 6 + ["!", "?", "'", "!?", "?!", "??", "!!", "'!", "\'\'"] + [
+    a + b + c for a in ("",) + _MARKS for b in _MARKS for c in _MARKS
+] + ["!!!!", "\'\'\'\'", "?\'?\'!", "\'!\'!\'"]
 WS = [" ", " ", " ", "\n", "\n", "\t", "  ", " \n", "\n\n", "\r\n", "\x0b", "\x0c", "\u00a0", "\u2003", "\x1c", "\n \n"]
 COMMENTS = [
     "", "", "x", "What a nub", "Can you even believe this guy?", "multi\nline", "two\n\nparagraphs", "{ inside", "1. a1 b2",
